@@ -114,6 +114,20 @@ pub enum ConnectError {
     Bootstrap(#[from] ant_bootstrap::Error),
 }
 
+/// Verification hook (feature `verif-hooks`): build a `Client` around a `Network` whose
+/// `SwarmDriver` is driven by an external harness instead of a live swarm.
+#[cfg(feature = "verif-hooks")]
+impl Client {
+    #[allow(missing_docs)]
+    pub fn verif_new(network: Network, evm_network: EvmNetwork) -> Self {
+        Self {
+            network,
+            client_event_sender: Arc::new(None),
+            evm_network,
+        }
+    }
+}
+
 impl Client {
     /// Initialize the client with default configuration.
     ///
